@@ -306,7 +306,7 @@ def run_queue_key(run, P):
                                   'Confirmable (which is then never retransmitted nor NACKed)' % (' and '.join(w for w, k in (('session == node->session', ks), ('id == node->id', ki)) if not k)), ctx.path())
         return None
     solve(f, Env(), on_event, None, None, None, key_fn=lambda e: tuple(sorted((k, v) for k, v in e.atoms.items() if S in k or I in k)), max_envs=128)
-    run.require(n[0] >= 1, 'R-QUEUE-KEY: no store through the out-parameter found in %s()' % fname)
+    run.require_count(n[0] >= 1, 'R-QUEUE-KEY: no store through the out-parameter found in %s()' % fname)
 
 
 # ---------------------------------------------------------------------------------------------------------------
@@ -389,4 +389,4 @@ def run_waitack(run, P):
         ctx = solve(f, Env({'mc': (), 'po': ()}), on_event, None, keys, R,
                     key_fn=lambda e: (e.ts.get('mc'), e.ts.get('po'), tuple(e.intf(a)[:2] for a in sorted(typeaps))), max_envs=512)
         run.stats['waitack_solver_steps'] += ctx.steps
-    run.require(n >= (3 if run.cfg == 'base' else 2) or run.fixture_mode, 'R-RETRANS: fewer than 3 (base) / 2 (reduced configurations) call sites of coap_wait_ack() found')
+    run.require_count(n >= (3 if run.cfg == 'base' else 2) or run.fixture_mode, 'R-RETRANS: fewer than 3 (base) / 2 (reduced configurations) call sites of coap_wait_ack() found')
